@@ -417,7 +417,7 @@ P("C13", "Parallel tree updates never collide, whatever the thread schedule",
   level_note="Trusted: rustc MIR semantics, z3, sequential consistency as the memory model (weak-memory reorderings are outside the solver's claim; counterexamples are replayed natively under loom, which does explore them), the bit-set model of the `available` bitmap; rayon's scheduling of whole trees and the hand-written Sync impls are not decidable here.",
   stubs_and_models=["atomics in event mode (read / write / rmw events with symbolic timestamps)", "RoaringBitmap = 16-bit bit-set"],
   functions_encoded=["ConcurrentNodeIds::new", "ConcurrentNodeIds::next", "Writer::used_tree_node (Kani, initial state)"],
-  bounds={"threads x calls": "2x1, 2x2 (quick); 3x1, 2x3, 3x2 (thorough)", "ids": "16"},
+  bounds={"threads x calls": "2x1, 2x2 (quick); 3x1, 2x3 (thorough; 3x2: no solver verdict in 40 min)", "ids": "16"},
   outside_claim=["weak memory", "rayon / Sync impls", "thread pools of 1..16 threads on whole builds"],
   assumptions=["SC atomics"])
 P("C04", "A stored vector is routed to itself by every tree (self-lookup works)",
